@@ -5,17 +5,155 @@ use crate::common::*;
 use refimpl::eval::{Builtins, ErrKind, Evaluator};
 use refimpl::gen::{gen_doc, mutate_doc, value_hash, GenCfg, TreeGen};
 use refimpl::json::val_eq;
-use refimpl::nf::{canon, kind_name, size, walk};
+use refimpl::nf::{canon, kind_name, size, walk, Step};
 use refimpl::parse::{parse, Opts};
 use refimpl::print::{minimize_parens, respace, Printer};
 use refimpl::rng::{fnv, Rng};
 use serde_json::{json, Value};
 use std::collections::BTreeSet;
 
+/// The step alphabet of the bounded-exhaustive part.
+fn step_alphabet() -> Vec<Step> {
+    use refimpl::nf::{CmpOp, Kind};
+    let f = |n: &str| vec![Step::Field(n.to_string())];
+    let lit = |v: Value| vec![Step::Literal(v)];
+    let proj = |k: Kind, rhs: Vec<Step>| Step::Project(k, rhs, (0, 0));
+    vec![
+        Step::Field("a".into()),
+        Step::Field("b".into()),
+        Step::Index(0),
+        Step::Index(-1),
+        Step::Index(2),
+        proj(Kind::ListWild, vec![]),
+        proj(Kind::ListWild, f("a")),
+        proj(Kind::ObjWild, vec![]),
+        proj(Kind::ObjWild, f("a")),
+        proj(Kind::Flatten, vec![]),
+        proj(Kind::Flatten, f("a")),
+        proj(Kind::Filter(f("a")), vec![]),
+        proj(Kind::Filter(vec![Step::Cmp(CmpOp::Gt, vec![], lit(json!(1)))]), vec![]),
+        proj(Kind::Filter(vec![Step::Cmp(CmpOp::Eq, f("a"), lit(json!("x")))]), f("b")),
+        proj(Kind::Slice(Some(1), None, 1), vec![]),
+        proj(Kind::Slice(None, None, -1), vec![]),
+        proj(Kind::Slice(None, Some(2), 1), vec![Step::Index(0)]),
+        Step::MultiList(vec![f("a"), vec![]]),
+        Step::MultiHash(vec![("k".into(), f("a")), ("j".into(), vec![])]),
+        Step::Not(vec![]),
+        Step::Or(f("a"), lit(json!("d"))),
+        Step::And(f("a"), f("b")),
+        Step::Cmp(CmpOp::Eq, vec![], lit(json!(1))),
+        Step::Cmp(CmpOp::Lt, f("a"), f("b")),
+        Step::Literal(json!([1, [2], null])),
+    ]
+}
+
+fn small_docs() -> Vec<Value> {
+    vec![
+        json!(null),
+        json!(1),
+        json!("s"),
+        json!([]),
+        json!({}),
+        json!([1, 2, 3]),
+        json!([[1, 2], [3], null, "x"]),
+        json!({"a": 1, "b": 2}),
+        json!({"a": {"a": [1, 2], "b": "x"}, "b": [{"a": 1, "b": "y"}, {"a": null}, {"b": "x", "a": "x"}]}),
+        json!([{"a": [1, [2]], "b": "x"}, {"a": "x", "b": []}, null, {"a": {"a": 1}}]),
+        json!({"a": [{"a": 1}, {"a": 2, "b": 3}], "b": {"a": [], "b": null}}),
+        json!([0, false, "", [], {}, null, "x"]),
+    ]
+}
+
+/// Bounded-exhaustive part: EVERY pipeline of 1..=maxlen steps over the alphabet, on every small document.
+fn enumerate_small(rep: &mut Report, args: &Args, ev: &Evaluator, maxlen: u32) {
+    let alpha = step_alphabet();
+    let docs = small_docs();
+    let k = alpha.len() as u64;
+    let total: u64 = (1..=maxlen).map(|l| k.pow(l)).sum();
+    let strict = Opts::strict();
+    let mut i = args.shard;
+    let mut done = 0u64;
+    while i < total {
+        let mut j = i;
+        let mut tree = vec![];
+        for len in 1..=maxlen {
+            let c = k.pow(len);
+            if j < c {
+                for _ in 0..len {
+                    tree.push(alpha[(j % k) as usize].clone());
+                    j /= k;
+                }
+                break;
+            }
+            j -= c;
+        }
+        i += args.shards;
+        let mut rng = Rng::new(i);
+        let mut pr = Printer::new(&mut rng);
+        pr.fancy_spelling = false;
+        let text = match pr.emit(&tree) {
+            Ok(t) => t,
+            Err(_) => continue,
+        };
+        let want = canon(&tree);
+        match parse(&text, &strict) {
+            Ok(q) if canon(&q) == want => {}
+            other => {
+                rep.harness_error(format!("enumeration self-check failed for {:?}: {:?}", text, other.map(|q| canon(&q))));
+                continue;
+            }
+        }
+        let expr = match guarded(|| jmespath::compile(&text)) {
+            Ok(Ok(e)) => e,
+            other => {
+                rep.violation("C01/valid-expression-rejected", json!({"expression": text, "got": format!("{:?}", other.map(|r| r.map(|_| ())))}));
+                continue;
+            }
+        };
+        done += 1;
+        for d in &docs {
+            rep.evaluations += 1;
+            let expected = ev.eval(&tree, d);
+            let got = guarded(|| expr.search(rcvar_of(d)));
+            let got_n: Result<Value, &'static str> = match &got {
+                Ok(Ok(v)) => match value_of(v) {
+                    Ok(j) => Ok(j),
+                    Err(_) => Err("non-json"),
+                },
+                Ok(Err(e)) => Err(err_class(e)),
+                Err(_) => Err("panic"),
+            };
+            let agree = match (&expected, &got_n) {
+                (Ok(x), Ok(g)) => val_eq(x, g, 1e-12),
+                (Err(e), Err(c)) => e.class() == *c,
+                _ => false,
+            };
+            if agree {
+                rep.count("enumerated_agree");
+                if matches!(&expected, Ok(x) if !x.is_null()) && tree.len() >= 2 {
+                    rep.nontrivial(fnv(want.as_bytes()) ^ value_hash(d).rotate_left(17));
+                }
+            } else if d15_explains(ev, &text, &want, d, &got_n) {
+                rep.violation("C01/projection-rhs-ends-after-dot-multiselect-list", json!({"expression": text, "document": d}));
+            } else {
+                rep.violation(
+                    "C01/mismatch",
+                    json!({"expression": text, "document": d, "expected": format!("{:?}", expected.as_ref().map_err(|e| e.class())), "got": format!("{:?}", got_n), "family": "bounded-exhaustive"}),
+                );
+            }
+        }
+    }
+    rep.add("enumerated_pipelines", done);
+    rep.extra.insert("enumeration_maxlen".into(), json!(maxlen));
+    rep.extra.insert("enumeration_alphabet".into(), json!(alpha.len()));
+}
+
 pub fn run(args: &Args) {
     let mut rep = Report::new("C01");
     let strict = Opts::strict();
     let ev = Evaluator::new(&Builtins);
+    let maxlen: u32 = args.kv.get("enum-len").and_then(|v| v.parse().ok()).unwrap_or(3);
+    enumerate_small(&mut rep, args, &ev, maxlen);
     let cdocs = crate::refcheck::compliance_docs();
     for i in 0..args.n {
         let mut rng = Rng::derive(args.seed, args.shard, i);
